@@ -415,3 +415,43 @@ def gen_module(ident, name, ld, pd, q):
             'set_option linter.unusedVariables false',
             '']
     return '\n'.join(head) + '\n' + rad_structure(ident, q) + '\n' + text + '\nend Sympde.Gen.Map\n', names, notes
+
+
+MODULES = []        # filled by generate(): the generated theorem modules (harness/props/c16.py: EXTRA_THEOREM_MODULES)
+NOT_PROVED = []     # statements kept as comments (named in the evidence)
+
+
+def generate(ctx=None):
+    es = entries()
+    files = {'SympdeModel/Gen/Mappings.lean': gen_defs(es)}
+    del MODULES[:]
+    del NOT_PROVED[:]
+    rows, failed, thms = [], [], []
+    for ident, name, ld, pd, q in es:
+        if not isinstance(q, dict):
+            failed.append('("%s", "%s")' % (ident, q[1]))
+            continue
+        if q.get('rad') is None or any(has_other(v) for k, v in q.items() if k != 'rad'):
+            failed.append('("%s", "outside the expression fragment")' % ident)
+            continue
+        text, names, notes = gen_module(ident, name, ld, pd, q)
+        files['SympdeModel/Gen/Map/%s.lean' % ident] = text
+        MODULES.append('SympdeModel.Gen.Map.%s' % ident)
+        NOT_PROVED.extend(notes)
+        rows.append('  ("%s", %d, %d)' % (ident, ld, pd))
+        thms += names
+    agg = ['/- GENERATED by harness/translate/mappings.py — do not edit.  The catalogue of analytical mappings as found in',
+           '   the current source, one theorem module per mapping x admissible dimension. -/']
+    agg += ['import %s' % m for m in MODULES]
+    agg += ['namespace Sympde.Gen.Map', '',
+            '/-- (identifier, ldim, pdim) of every catalogue mapping x admissible dimension -/',
+            'def catalogue : List (String × Nat × Nat) := [', ',\n'.join(rows), ']', '',
+            '/-- classes the real constructor refused, or whose stored quantities leave the expression fragment -/',
+            'def notTranslated : List (String × String) := [%s]' % ', '.join(failed), '',
+            'theorem catalogue_translated : notTranslated = [] := by decide', '',
+            '/-- statements of the generated blocks that are kept as comments (not proved) -/',
+            'def notProved : List String := [%s]' % ', '.join('"%s"' % n for n in NOT_PROVED), '',
+            'end Sympde.Gen.Map', '']
+    files['SympdeModel/Gen/MappingsThms.lean'] = '\n'.join(agg)
+    MODULES.append('SympdeModel.Gen.MappingsThms')
+    return files
